@@ -356,8 +356,46 @@ class Model:
             for bb, t in b.calls():
                 p = callee_path(t)
                 if p in RECV_FNS:
+                    lifted = self._lifted_recv_sites(b, bb, t, p)
+                    if lifted:
+                        out.extend(lifted)      # one site per construction of the wrapper instead of the merged one inside it
+                        continue
                     roles, other = self.receiver_role(b, t["args"][0])
                     out.append({"body": b, "bb": bb, "t": t, "roles": roles, "other": other, "fn": p})
+        return out
+
+    def _lifted_recv_sites(self, b, bb, t, p):
+        """a receive inside the hand-written `Stream` impl of a crate-local wrapper struct (`ReceiverStream { rx }`): one
+        receive site per construction of the wrapper, in the body that hands it the receiver"""
+        sig = self.fb.fns.get(b.id) or {}
+        adt = (sig.get("impl_self") or "").split("<")[0].lstrip("&").strip()
+        if not adt or self.flow.local_stream_impl(adt) is not b:
+            return []
+        fields = set()
+        for x in self.flow.sources_operand(b, t["args"][0], (), "prov@" + b.id):
+            if x.kind == "param" and x[1] == b.id and x[2] == 1 and x[3] and isinstance(x[3][0], int):
+                fields.add(x[3][0])
+        if len(fields) != 1:
+            return []
+        f = list(fields)[0]
+        out = []
+        for cb in self.fb.prod_bodies():
+            for cbb, si, st in cb.stmts():
+                if not (st["k"] == "assign" and st["rv"]["k"] == "agg" and st["rv"].get("def") == adt and f < len(st["rv"]["ops"])):
+                    continue
+                op = st["rv"]["ops"][f]
+                psrc = self.flow.sources_operand(cb, op, (), "prov@" + cb.id) if cb.kind == "fn" else frozenset()
+                pidx = [x[2] for x in psrc if x.kind == "param" and x[1] == cb.id and not x[3]]
+                sites = [(c2, b2, t2) for (c2, b2, t2) in self.flow.call_sites().get(cb.id, []) if not self.fb.is_test_body(c2)]
+                if cb.kind == "fn" and len(pidx) == 1 and len(psrc) == 1 and sites:
+                    for (c2, b2, t2) in sites:
+                        if pidx[0] - 1 < len(t2["args"]):
+                            roles, other = self.receiver_role(c2, t2["args"][pidx[0] - 1])
+                            out.append({"body": c2, "bb": b2, "t": {"args": [t2["args"][pidx[0] - 1]], "dest": t2["dest"]}, "roles": roles,
+                                        "other": other, "fn": p, "lifted": True})
+                else:
+                    roles, other = self.receiver_role(cb, op)
+                    out.append({"body": cb, "bb": cbb, "t": {"args": [op], "dest": st["pl"]}, "roles": roles, "other": other, "fn": p, "lifted": True})
         return out
 
     # -- user callbacks -------------------------------------------------------
